@@ -108,6 +108,7 @@ HOST_CASE_VARIANT = "MAIL.corp.test"
 EXTRA = {"ip": ["1.2.3.4x", "192.168.10.5_y"],
          "host": [HOST_CASE_VARIANT, "db.corp.testx"],
          "mk": [MAC1 + "x"],
+         "v6": [],
          "mixed": ["1.2.3.4x"]}
 
 
@@ -116,7 +117,26 @@ def split_token(tok):
     return SHAPE.get(tok, (tok, ""))
 
 
-KIND = {HOST_CASE_VARIANT: "host"}
+# IPv6 (the statement says "IP address"; mapping()/facts/CSV have an IPv6 section): compressed and full form, a
+# case variant, a textual prefix of another address, and an original equal to an issuable substitute.
+V6_1 = "2001:db8::1"
+V6_1_SUB = "9195:3b3::3"                    # literal: what IPv6._ip2db issues for V6_1 (sha1 of each hex group)
+V6S = [V6_1, "2001:DB8::1", "fe80::1", "fe80::1a", "2001:db8:0:0:0:0:0:1", V6_1_SUB]
+# tokens that only the explicit "shapes" histories use
+OBF_FQDN = "c07c5843e583.example.com"       # literal: the hashed substitute of the system's own name, fed as an input
+BOUNDARY_IPS = ["255.255.255.255", "10.0.0.1", "127.0.0.1", "0.0.0.0"]       # max value, zero octets, ignore list, not an address for the pattern
+BOUNDARY_MACS = ["00:00:00:00:00:00", "ff:ff:ff:ff:ff:ff"]                   # the MAC ignore list
+KW11 = ["QZ%02dQ" % i for i in range(11)]   # 11 configured keywords: substitutes keyword0 .. keyword10
+
+KIND = {HOST_CASE_VARIANT: "host", OBF_FQDN: "host"}
+for _t in V6S:
+    KIND[_t] = "ipv6"
+for _t in BOUNDARY_IPS:
+    KIND[_t] = "ip"
+for _t in BOUNDARY_MACS:
+    KIND[_t] = "mac"
+for _t in KW11:
+    KIND[_t] = "kw"
 for _t in IPS:
     KIND[_t] = "ip"
 for _t in HOSTS:
@@ -149,29 +169,32 @@ def long_history(kind, order):
             hist.append([[t]])
     hist.append([[toks[0], toks[len(toks) // 2]], [toks[-1]]])    # and everything must still map the same way
     return hist
-TOKEN_FAMILY = {"ip": "ip", "host": "host", "mac": "mk", "kw": "mk"}
+TOKEN_FAMILY = {"ip": "ip", "host": "host", "mac": "mk", "kw": "mk", "ipv6": "v6"}
 
 FAMILIES = {
     "ip": IPS,
     "host": HOSTS,
     "mk": MACS + KWS,
+    "v6": V6S + [MAC1],
     # cross-kind histories: one representative per structural class of every kind
     "mixed": ["1.2.3.4", "100.200.100.200", "10.230.230.1",
               SHORT, FQDN, "db.corp.test", "b.corp.test", "a.b.corp.test", "host2.example.com",
               MAC1, "AA:BB:CC:DD:EE:01", MAC1_SUB, "SECRETKW"],
 }
-FAMILY_ORDER = ["ip", "host", "mk", "mixed"]
+FAMILY_ORDER = ["ip", "host", "mk", "v6", "mixed"]
 
 BOUNDS = {
     "quick": {"families": {"ip": {"tokens": "7 + 2 glued", "line_tokens": 2, "depth": 3},
                            "host": {"tokens": "7 + case variant + 1 glued", "line_tokens": 2, "depth": 3},
                            "mk": {"tokens": "5 + 1 glued", "line_tokens": 2, "depth": 3},
+                           "v6": {"tokens": "6 IPv6 + 1 MAC", "line_tokens": 2, "depth": 3},
                            "mixed": {"tokens": "13 + 1 glued", "line_tokens": 2, "depth": 2}},
               "spec_lines": "1 line of <= line_tokens tokens, or 2 lines of 1 token each",
               "counter_family": "6 long runs (300 IPv4 / 120 host names, ascending / descending / revisiting)"},
     "thorough": {"families": {"ip": {"tokens": "7 + 2 glued", "line_tokens": 3, "depth": 4},
                               "host": {"tokens": "7 + case variant + 1 glued", "line_tokens": 3, "depth": 4},
                               "mk": {"tokens": "5 + 1 glued", "line_tokens": 3, "depth": 4},
+                              "v6": {"tokens": "6 IPv6 + 1 MAC", "line_tokens": 3, "depth": 4},
                               "mixed": {"tokens": "13 + 1 glued", "line_tokens": 2, "depth": 3}},
                  "spec_lines": "1 line of <= line_tokens tokens (3-token lines over the base tokens only, without the "
                                "glued / case-variant additions), or 2 lines of 1 token each",
@@ -236,9 +259,9 @@ class _Cfg(object):
         self.rhsm_facts_file = facts
 
 
-def new_cleaner(scratch_dir):
+def new_cleaner(scratch_dir, keywords=None):
     cl = _cleaner_cls()(_Cfg(os.path.join(scratch_dir, "insights-client.facts")),
-                        {"keywords": list(KEYWORDS)}, fqdn=FQDN)
+                        {"keywords": list(keywords or KEYWORDS)}, fqdn=FQDN)
     cl.report_dir = scratch_dir            # the constructor hard-codes /tmp
     cl.rhsm_facts_file = os.path.join(scratch_dir, "insights-client.facts")
     return cl
@@ -271,7 +294,7 @@ class Snapshots(object):
             return pickle.dumps(cl, pickle.HIGHEST_PROTOCOL)
         if self.mode == "deepcopy":
             return copy.deepcopy(cl)
-        return [list(map(list, e)) for e in hist]
+        return json.loads(json.dumps(hist))
 
     def give(self, snap):
         """-> a live Cleaner in the snapshotted state that the caller may mutate."""
@@ -281,7 +304,7 @@ class Snapshots(object):
             return copy.deepcopy(snap)
         cl = new_cleaner(self.scratch_dir)
         for e in snap:
-            cl.clean_content(event_lines(e))
+            execute(cl, norm_event(e))
         return cl
 
 
@@ -350,37 +373,168 @@ def check_listing(listing, pairs, occurred, clause_pair, clause_only):
     return v
 
 
-def observe(event, out):
-    """Positional re-split. Returns list of (original, observed text in its place, glued?) or None when the shape is off."""
-    if not isinstance(out, list) or len(out) != len(event):
+# ---- events, tokens, channels -------------------------------------------------------------------
+# event  := [line, ...]                                  (plain: clean_content(list))
+#         | {"lines": [line, ...], "mode": one of MODES, "no_obfuscate": [...], "new_cleaner": bool}
+# line   := [token, ...]            ([] renders as an empty line)
+# token  := "original" | a glued token of SHAPE | [segment, ...] where a segment that is a known original is an
+#           original and any other segment is literal text adjacent to it (delimiters such as ':' '/' ',' '=' '-' '(')
+MODES = ("content",        # clean_content([lines])
+         "string",         # clean_content("line") - the single-string entry, one line only
+         "width",          # clean_content([lines], width=True): every token is followed by 20 blanks and '| '
+         "file",           # the lines are written to a file, Cleaner.clean_file() rewrites it, the file is read back
+         "file-netstat")   # same through a file named netstat_-neopa (clean_file then selects width=True)
+WIDTH_PAD = 20
+EXEMPT_KIND = {"ip": "ip", "hostname": "host", "mac": "mac", "keyword": "kw", "ipv6": "ipv6"}
+
+
+def norm_event(event):
+    if isinstance(event, dict):
+        return {"lines": event["lines"], "mode": event.get("mode", "content"),
+                "no_obfuscate": list(event.get("no_obfuscate") or []), "new_cleaner": bool(event.get("new_cleaner"))}
+    return {"lines": event, "mode": "content", "no_obfuscate": [], "new_cleaner": False}
+
+
+def segments(tok):
+    """token -> [(is_original, text)]"""
+    if isinstance(tok, list):
+        return [(seg in KIND, seg) for seg in tok]
+    orig, glue = split_token(tok)
+    return [(True, orig)] + ([(False, glue)] if glue else [])
+
+
+def render(tok):
+    return "".join(text for _o, text in segments(tok))
+
+
+def line_originals(line):
+    return [text for tok in line for is_o, text in segments(tok) if is_o]
+
+
+def event_lines(event):
+    ev = norm_event(event)
+    if ev["mode"] in ("width", "file-netstat"):
+        return ["".join(render(t) + " " * WIDTH_PAD + "| " for t in toks) for toks in ev["lines"]]
+    return [DELIM.join(render(t) for t in toks) for toks in ev["lines"]]
+
+
+def execute(cl, ev):
+    """Feeds one (normalised) event through the channel it names. -> list of output lines"""
+    lines = event_lines(ev)
+    no = list(ev["no_obfuscate"]) or None
+    mode = ev["mode"]
+    if mode == "content":
+        return cl.clean_content(lines, no_obfuscate=no)
+    if mode == "string":
+        if len(lines) != 1:
+            raise ValueError("string mode takes one line")
+        out = cl.clean_content(lines[0], no_obfuscate=no)
+        return [out] if isinstance(out, str) else out
+    if mode == "width":
+        return cl.clean_content(lines, no_obfuscate=no, width=True)
+    if mode in ("file", "file-netstat"):
+        path = os.path.join(cl.report_dir, "netstat_-neopa" if mode == "file-netstat" else "some_spec")
+        with open(path, "w") as fh:
+            fh.write("".join(l + "\n" for l in lines))
+        cl.clean_file(path, no_obfuscate=no)
+        if not os.path.exists(path):
+            return []
+        with open(path) as fh:
+            out = fh.read().splitlines()
+        os.remove(path)
+        return out
+    raise ValueError(mode)
+
+
+def parse_part(tok, part):
+    """The text observed in place of each original of one token. -> [(original, text, shape)] or None"""
+    segs = segments(tok)
+    shape = "plain" if len(segs) == 1 else "glued"
+    lo, hi = 0, len(part)
+    if not segs[0][0]:
+        if not part.startswith(segs[0][1]):
+            return None
+        lo = len(segs[0][1])
+        segs = segs[1:]
+    if segs and not segs[-1][0]:
+        if not part.endswith(segs[-1][1]) or hi - len(segs[-1][1]) < lo:
+            return None
+        hi -= len(segs[-1][1])
+        segs = segs[:-1]
+    res = []
+    pos = lo
+    for i, (is_o, text) in enumerate(segs):
+        if not is_o:
+            if not part.startswith(text, pos):
+                return None
+            pos += len(text)
+            continue
+        nxt = segs[i + 1][1] if i + 1 < len(segs) else None     # originals are always separated by a literal
+        end = hi if nxt is None else part.find(nxt, pos, hi)
+        if end < 0:
+            return None
+        res.append((text, part[pos:end], shape))
+        pos = end
+    return res if pos == hi else None
+
+
+def observe(ev, out):
+    """Positional re-split. -> [(original, observed text in its place, shape)] or None when the shape is off."""
+    lines = ev["lines"]
+    if not isinstance(out, list):
         return None
+    if not any(lines) and out == []:
+        return []                                        # all lines blank: documented to give []
+    if len(out) != len(lines):
+        return None
+    wide = ev["mode"] in ("width", "file-netstat")
     occs = []
-    for toks, oline in zip(event, out):
+    for toks, oline in zip(lines, out):
         if not isinstance(oline, str):
             return None
-        parts = oline.split(DELIM)
+        if wide:
+            parts = oline.split("|")
+            if len(parts) != len(toks) + 1 or parts[-1].strip():
+                return None
+            parts = [p_.strip() for p_ in parts[:-1]]
+        elif not toks:
+            if oline != "":
+                return None
+            parts = []
+        else:
+            parts = oline.split(DELIM)
         if len(parts) != len(toks):
             return None
         for tok, part in zip(toks, parts):
-            orig, glue = split_token(tok)
-            if glue and part.endswith(glue):
-                part = part[:-len(glue)]       # (a rendering that lost the glued text stays whole and will not match)
-            occs.append((orig, part, bool(glue)))
+            got = parse_part(tok, part)
+            if got is None:
+                return None
+            occs.extend(got)
     return occs
 
 
-def oracle(obs, event, out, maps):
-    """-> (violations, new_obs, stats). violations: [(clause, expected, observed, involved tokens)]."""
+def oracle(obs, ev, out, maps):
+    """-> (violations, new_obs, stats). violations: [(clause, expected, observed, involved originals)].
+    obs maps an original to the text observed in its place, or to None when it has occurred but nothing is
+    remembered about it (it only occurred in specs exempted by no_obfuscate, or it was involved in a known-defect
+    trigger and forgotten - see forgive())."""
     v = []
     new = dict(obs)
     info = {"recurrences": 0, "tags": set(), "unreplaced_equal_to_substitute": 0}
-    occs = observe(event, out)
+    occs = observe(ev, out)
     if occs is None:
-        v.append(("shape:one-output-token-per-input-token", {"lines": [len(l) for l in event]},
+        v.append(("shape:one-output-token-per-input-token", {"lines": [len(l) for l in ev["lines"]]},
                   {"output": out}, []))
         return v, new, info
+    exempt = set(EXEMPT_KIND[n] for n in ev["no_obfuscate"] if n in EXEMPT_KIND)
+    live = []
     # (1) one substitute per original, across all occurrences so far
-    for tok, sub, glued in occs:
+    for tok, sub, shape in occs:
+        if KIND[tok] in exempt:                # this spec is exempted for the kind: C08 checks that it stays as it is;
+            new.setdefault(tok, None)          # here it only counts as "occurred in the content"
+            info["tags"].add("%s:exempt" % KIND[tok])
+            continue
+        live.append((tok, sub))
         prev = new.get(tok)
         if prev is None:
             new[tok] = sub
@@ -391,10 +545,13 @@ def oracle(obs, event, out, maps):
             if prev != sub:
                 v.append(("consistency:one-substitute-per-original", {"original": tok, "substitute": prev},
                           {"original": tok, "substitute": sub, "event_output": out}, [tok]))
-        info["tags"].add("%s:%s:%s%s" % (KIND[tok], rec, "same" if sub == tok else "sub", ":glued" if glued else ""))
-        if glued:
+        info["tags"].add("%s:%s:%s%s" % (KIND[tok], rec, "same" if sub == tok else "sub",
+                                         ":glued" if shape != "plain" else ""))
+        if shape != "plain":
             info["glued"] = info.get("glued", 0) + 1
-    pairs = set(new.items()) | set((t, s_) for t, s_, _g in occs)
+    if ev["mode"] != "content":
+        info["tags"].add("mode:" + ev["mode"])
+    pairs = set((t, s_) for t, s_ in new.items() if s_ is not None) | set(live)
     # (2) distinct originals -> distinct substitutes (IPv4, host names), among replaced originals
     for kind in INJECTIVE_KINDS:
         bysub = {}
@@ -445,7 +602,7 @@ def read_reports(cl, scratch_dir):
         for row in rows:
             a, _, b = row.partition(",")
             if kind == "kw":               # header "Replaced Keyword,Original Keyword" is ambiguous: accept both
-                orig, sub = (a, b) if a in KEYWORDS else (b, a)
+                orig, sub = (a, b) if KIND.get(a) == "kw" else (b, a)
             else:                          # header "Obfuscated X,Original X"
                 sub, orig = a, b
             d.setdefault(orig, []).append(sub)
@@ -458,7 +615,7 @@ def check_reports(cl, scratch_dir, obs):
         facts_listing, csv_listing = read_reports(cl, scratch_dir)
     except Exception as ex:
         return [("raises:generate_report", "no exception", repr(ex), [])]
-    pairs = set(obs.items())
+    pairs = set((t, s_) for t, s_ in obs.items() if s_ is not None)
     occ = set(obs)
     v = []
     for clause, exp, got, inv in check_listing(facts_listing, pairs, occ, "report:facts-file-matches-observed",
@@ -484,12 +641,14 @@ def trigger_features(event, involved, obs_before, maps_after):
     """Structural facts about the violating event, computed from the history (event, what the oracle had
     observed before it, what mapping() reports after it) - not from the failed clause.
 
-    original_equals_issued_substitute_same_line (ipv4 / mac): a line carries two originals a, b where b is
+    original_equals_issued_substitute_same_line (ipv4 / mac / ipv6): a line carries two originals a, b where b is
       textually the substitute owned by a, and a is substituted before some occurrence of b is processed
-      (IPv4: longer first, ties by position; MAC: by position) - sequential str.replace then rewrites a's
+      (IPv4: longer first, ties by position; MAC, IPv6: by position) - sequential str.replace then rewrites a's
       fresh substitute together with b.
     hostname_suffix_of_other_same_line: a line carries two host names of the obfuscated domain where the one
       found first is a textual suffix of the other - str.replace rewrites the tail of the longer name.
+    ipv6_substring_of_other_same_line: a line carries two IPv6 addresses where the one found first is a textual
+      substring of the other - str.replace rewrites that part of the longer address.
     The trigger is reported only when every original involved in the violation is part of such a pair."""
     inv = set(involved)
     kinds = sorted(set(KIND.get(t, "unknown") for t in inv)) or ["none"]
@@ -504,10 +663,10 @@ def trigger_features(event, involved, obs_before, maps_after):
             return [s]
         return _listed_for(maps_after, KIND[a], a)
 
-    cover_ip, cover_mac, cover_host = set(), set(), set()
+    cover_ip, cover_mac, cover_host, cover_v6, cover_v6sub = set(), set(), set(), set(), set()
     boundary = True
-    for line in event:
-        first, last = _positions([split_token(t)[0] for t in line])
+    for line in norm_event(event)["lines"]:
+        first, last = _positions(line_originals(line))
         toks = list(first)
         for a in toks:
             for b in toks:
@@ -524,59 +683,146 @@ def trigger_features(event, involved, obs_before, maps_after):
                     cover_host.update((a, b))
                     if not b.endswith("." + a):
                         boundary = False
-    if inv <= cover_ip:
-        feats["trigger"] = "original_equals_issued_substitute_same_line"
-    elif inv <= cover_mac:
+                elif k == "ipv6":
+                    if b in owned(a) and first[a] < last[b]:
+                        cover_v6.update((a, b))
+                    if a in b and first[a] < first[b]:
+                        cover_v6sub.update((a, b))
+    if inv <= cover_ip or inv <= cover_mac or inv <= cover_v6:
         feats["trigger"] = "original_equals_issued_substitute_same_line"
     elif inv <= cover_host:
         feats["trigger"] = "hostname_suffix_of_other_same_line"
         feats["suffix_at_label_boundary"] = boundary
+    elif inv <= cover_v6sub:
+        feats["trigger"] = "ipv6_substring_of_other_same_line"
     return feats
+
+
+def forgive(new_obs, viols, feats):
+    """Histories are continued PAST a violation when every violation of the event carries the structural trigger of
+    a known defect family: the originals involved are forgotten (they stay 'occurred', nothing is remembered about
+    their substitute), everything else is kept. -> the memory to continue with, or None = cut the branch.
+    States that are only reachable through a trigger are thereby explored; any after-effect of the defect on other
+    originals, or a second inconsistency of the forgotten ones later on, is still reported."""
+    if not viols or any(f["trigger"] == "none" for f in feats):
+        return None
+    out = dict(new_obs)
+    for _clause, _exp, _got, inv in viols:
+        for t in inv:
+            if t in out:
+                out[t] = None
+    return out
 
 
 # ---- one transition ---------------------------------------------------------------------------------
 
-def event_lines(event):
-    return [DELIM.join(toks) for toks in event]
+_NOINFO = {"recurrences": 0, "tags": frozenset(), "unreplaced_equal_to_substitute": 0}
 
 
 def step(cl, obs, event):
     """Calls the real code once. -> (violations, new_obs, info, maps)"""
+    ev = norm_event(event)
     try:
-        out = cl.clean_content(event_lines(event))
+        out = execute(cl, ev)
     except Exception as ex:
-        return [("raises:clean_content", "no exception", repr(ex), [])], dict(obs), \
-            {"recurrences": 0, "tags": set(), "unreplaced_equal_to_substitute": 0}, {}
+        return [("raises:clean_content", "no exception", repr(ex), [])], dict(obs), dict(_NOINFO), {}
     try:
         maps = read_mappings(cl)
     except Exception as ex:
-        return [("raises:mapping", "no exception", repr(ex), [])], dict(obs), \
-            {"recurrences": 0, "tags": set(), "unreplaced_equal_to_substitute": 0}, {}
-    v, new, info = oracle(obs, event, out, maps)
+        return [("raises:mapping", "no exception", repr(ex), [])], dict(obs), dict(_NOINFO), {}
+    v, new, info = oracle(obs, ev, out, maps)
     return v, new, info, maps
 
 
-def check_case(case):
-    """Replays a whole history on a fresh Cleaner; oracle (all five clauses) after every event.
-    -> [(clause, expected, observed, features)] of the first violating event."""
+def advance(cl, obs, event, with_reports):
+    """One event with the whole oracle and the continuation rule.
+    -> (violations, features, obs to continue with or None = cut, info, maps)"""
+    v, new, info, maps = step(cl, obs, event)
+    if not v and with_reports:
+        v = check_reports(cl, cl.report_dir, new)
+    feats = [trigger_features(event, inv, obs, maps) for _c, _e, _g, inv in v]
+    if not v:
+        return v, feats, new, info, maps
+    return v, feats, forgive(new, v, feats), info, maps
+
+
+def case_keywords(case):
+    kws = list(case.get("keywords", KEYWORDS))
+    if case.get("fqdn", FQDN) != FQDN or case.get("delimiter", DELIM) != DELIM or \
+            not kws or any(KIND.get(k) != "kw" for k in kws):
+        raise ValueError("fqdn and delimiter of a C09 case are fixed (%r %r); keywords must be known keyword tokens"
+                         % (FQDN, DELIM))
+    return kws
+
+
+def run_history(case):
+    """Replays a whole history on a fresh Cleaner; oracle (all five clauses) after every event; an event marked
+    new_cleaner starts a second Cleaner in the same process with an empty oracle memory.
+    -> ([(clause, expected, observed, features)], stats): the violations of the first event that violates without
+    being forgiven (see forgive()), or of the last event."""
+    if case.get("kind") == "fresh-process":
+        return check_fresh_process(case), {"recurrences": 0, "events": len(case["second"])}
     hist = case["history"]
-    if (case.get("fqdn", FQDN), case.get("keywords", KEYWORDS), case.get("delimiter", DELIM)) != (FQDN, KEYWORDS, DELIM):
-        raise ValueError("the configuration part of a C09 case is fixed: %r %r %r" % (FQDN, KEYWORDS, DELIM))
+    kws = case_keywords(case)
+    stats = {"recurrences": 0, "events": len(hist), "forgiven_events": 0}
     with tmp.scratch("c09") as d:
-        cl = new_cleaner(d)
+        cl = new_cleaner(d, kws)
         obs = {}
         for i, event in enumerate(hist):
-            before = obs
-            v, obs, _info, maps = step(cl, before, event)
-            if not v:
-                v = check_reports(cl, d, obs)
-            if v:
+            if norm_event(event)["new_cleaner"]:
+                cl = new_cleaner(d, kws)
+                obs = {}
+            v, feats, cont, info, _maps = advance(cl, obs, event, True)
+            stats["recurrences"] += info["recurrences"]
+            if v and (cont is None or i == len(hist) - 1):
                 out = []
-                for clause, exp, got, inv in v:
-                    f = trigger_features(event, inv, before, maps)
+                for (clause, exp, got, _inv), f in zip(v, feats):
+                    f = dict(f)
                     f["violating_event_index"] = i
                     out.append((clause, exp, got, f))
-                return out
+                return out, stats
+            if v:
+                stats["forgiven_events"] += 1
+            obs = cont
+    return [], stats
+
+
+def check_case(case):
+    return run_history(case)[0]
+
+
+def raw_run(history, keywords=None):
+    """Outputs and mappings of a history on a fresh Cleaner, without any oracle (used across processes)."""
+    res = []
+    with tmp.scratch("c09r") as d:
+        cl = new_cleaner(d, keywords)
+        for event in history:
+            out = execute(cl, norm_event(event))
+            res.append([out, json.loads(json.dumps(read_mappings(cl), sort_keys=True))])
+    return res
+
+
+def check_fresh_process(case):
+    """case = {"kind": "fresh-process", "history": H1, "second": H2}: a second Cleaner created in this process after
+    H1 ran on a first one must behave on H2 exactly like a Cleaner in a fresh interpreter (no class-level or
+    module-level table may leak from one collection run into the next)."""
+    import subprocess
+    import sys
+    raw_run(case["history"])
+    here = raw_run(case["second"])
+    root = os.path.dirname(os.path.dirname(os.path.abspath(__file__)))
+    code = ("import sys, json, logging; logging.disable(logging.CRITICAL); sys.path.insert(0, %r); sys.path.insert(0, %r); "
+            "from props import c09; print(json.dumps(c09.raw_run(json.loads(sys.argv[1])), sort_keys=True))"
+            % (root, os.environ.get("VERIF_REPO", "/repo")))
+    env = dict(os.environ)
+    env["PYTHONHASHSEED"] = "0"
+    p = subprocess.run([sys.executable, "-c", code, json.dumps(case["second"])], env=env,
+                       stdout=subprocess.PIPE, stderr=subprocess.PIPE, timeout=300)
+    if p.returncode != 0:
+        raise RuntimeError("fresh-process helper failed: %s" % p.stderr.decode("utf-8", "replace")[-800:])
+    fresh = json.loads(p.stdout.decode("utf-8"))
+    if json.loads(json.dumps(here, sort_keys=True)) != fresh:
+        return [("isolation:second-cleaner-equals-fresh-process", fresh, here, {"trigger": "none", "kind": "none"})]
     return []
 
 
@@ -671,8 +917,8 @@ def units(tier, seed):
 
 
 def unit_weight(u):
-    w = {"ip": 4, "mixed": 3, "host": 2, "mk": 1, "counter": 5}[u["fam"]]
-    return w if u["part"] == "subtree" else 0
+    w = {"ip": 4, "mixed": 3, "host": 2, "mk": 1, "v6": 1, "counter": 5, "shapes": 1}[u["fam"]]
+    return w if u["part"] in ("subtree", "longrun") else 0
 
 
 # ---- exploration --------------------------------------------------------------------------------------
